@@ -8,6 +8,7 @@ mod importreplay;
 mod lazyreplay;
 mod lockmine;
 mod sched;
+mod openreplay;
 mod rawreplay;
 mod reads;
 mod util;
@@ -33,6 +34,8 @@ fn main() {
         "eagerreplay" => eagerreplay::main(&args[2..]),
         "codecreplay" => codecreplay::main(&args[2..]),
         "lazyreplay" => lazyreplay::main(&args[2..]),
+        "openreplay" => openreplay::main(&args[2..]),
+        "openprobe" => openreplay::probe_main(&args[2..]),
         other => {
             eprintln!("unknown subcommand {other}");
             2
